@@ -182,6 +182,9 @@ class MacroProgram(ElementProgram):
         ns = start['ns_attrs']
         attrs = start['attrs']
 
+        if len(ns) < len(attrs):
+            self._check_duplicates(start)
+
         if self.enable_data_attributes:
             attrs = list(attrs)
             convert_data_attributes(
@@ -751,6 +754,22 @@ class MacroProgram(ElementProgram):
             value = kwargs.pop(attribute, None)
             if value is not None:
                 setattr(self, attribute, value)
+
+    def _check_duplicates(self, start):
+        # Two attributes of the tag have the same namespace and name;
+        # for a statement, the result would depend on their order.
+        seen = set()
+        for attr in start['attrs']:
+            prefix, colon, name = attr['name'].partition(':')
+            if colon:
+                ns = start['ns_map'].get(prefix, start['namespace'])
+            else:
+                ns, name = start['namespace'], prefix
+            if ns in self.DROP_NS and (ns, name) in seen:
+                raise LanguageError(
+                    "Statement given twice on the same element.",
+                    attr['name'])
+            seen.add((ns, name))
 
     def _check_attributes(self, namespace, ns):
         if namespace in self.DROP_NS and ns.get((TAL, 'attributes')):
